@@ -325,3 +325,72 @@ Proof.
   intros a b. split; [apply dadd6_rnd|]. split; [apply dsub6_rnd|]. split; [apply dmul6_rnd|].
   split; [apply ddiv6_rnd|apply to_integral_Q].
 Qed.
+
+(* ------------------------------------------------------------------ *)
+(* integer formats on the decimal path (fractional value, bound or step) *)
+(* ------------------------------------------------------------------ *)
+
+(* int(val.to_integral_value()) (default context: half even) is within 1/2 *)
+Lemma to_integral_even_half : forall d,
+  Qabs (inject_Z (dec_to_Z (to_integral HalfEven d)) - dval d) <= 1 # 2.
+Proof.
+  intro d. unfold to_integral. destruct (0 <=? dexp d)%Z eqn:E.
+  - assert (H : inject_Z (dec_to_Z d) == dval d).
+    { unfold dec_to_Z, dval. rewrite E. rewrite <- p10_Z by lia. rewrite <- inject_Z_mult.
+      apply inject_Z_injective. unfold scoef. destruct (dneg d); lia. }
+    rewrite H. setoid_replace (dval d - dval d) with 0 by ring. discriminate.
+  - set (k := (- dexp d)%Z). assert (Hk : (0 < k)%Z) by lia.
+    set (c' := round_drop HalfEven (dcoef d) (Z.to_N k)).
+    destruct (round_drop_bound HalfEven (dcoef d) (Z.to_N k)) as [_ Hb]. fold c' in Hb.
+    rewrite pow10_Z in Hb by lia. set (P := (10 ^ k)%Z) in *.
+    assert (HP : (0 < P)%Z) by (apply ConvertInt.p10_pos; lia).
+    assert (Hz : dec_to_Z (mkDec (dneg d) c' 0) = (sgz (dneg d) * Z.of_N c')%Z).
+    { unfold dec_to_Z. cbn [dexp dneg dcoef]. change (0 <=? 0)%Z with true. cbv iota. rewrite Z.pow_0_r, Z.mul_1_r. unfold sgz. destruct (dneg d); lia. }
+    rewrite Hz.
+    assert (A1 : at_exp (inject_Z (sgz (dneg d) * Z.of_N c')) (sgz (dneg d) * Z.of_N c' * P) (dexp d)).
+    { assert (A0 : at_exp (inject_Z (sgz (dneg d) * Z.of_N c')) (sgz (dneg d) * Z.of_N c') 0).
+      { unfold at_exp, p10. rewrite Qpower_0_r. ring. }
+      apply (at_exp_lower _ _ _ (dexp d)) in A0; [|lia].
+      replace (0 - dexp d)%Z with k in A0 by lia. exact A0. }
+    assert (A2 := dval_at d). rewrite scoef_sgz in A2.
+    assert (A3 := at_exp_abs _ _ _ (at_exp_sub _ _ _ _ _ A2 A1)).
+    unfold at_exp in A3. rewrite A3.
+    assert (Hhalf : (1 # 2) == inject_Z P * p10 (dexp d) * (1 # 2)).
+    { replace (dexp d) with (- k)%Z by lia. rewrite p10_neg by lia. fold P. field. apply injZ_neq0. lia. }
+    rewrite Hhalf.
+    replace (sgz (dneg d) * Z.of_N c' * P - sgz (dneg d) * Z.of_N (dcoef d))%Z
+      with (sgz (dneg d) * (Z.of_N c' * P - Z.of_N (dcoef d)))%Z by ring.
+    rewrite sgz_abs.
+    setoid_replace (inject_Z P * p10 (dexp d) * (1 # 2)) with (inject_Z P * (1 # 2) * p10 (dexp d)) by ring.
+    apply Qmult_le_compat_r; [|apply Qlt_le_weak, p10_pos].
+    unfold Qle, Qmult, inject_Z. cbn [Qnum Qden]. lia.
+Qed.
+
+Lemma int_dec_path_lemma : forall f omin omax s str v,
+  is_integer_fmt f = true -> dcoef s <> 0%N ->
+  let c := clamp omin omax v in
+  let off := match omin with Some m => m | None => dzero end in
+  is_integral HalfUp c && is_integral HalfUp off && is_integral HalfUp s = false ->
+  let C := clampQ (option_map dval omin) (option_map dval omax) (dval v) in
+  let O := offQ omin in
+  exists z res d q m,
+    check_convert f omin omax (Some s) str (RFin v) = Ok (VInt z) /\
+    Qabs (inject_Z z - dval res) <= 1 # 2 /\
+    rnd6 (C - O) d /\ rnd6 (d / dval s) q /\ rnd6 (inject_Z (rhaQ q) * dval s) m /\ rnd6 (O + m) (dval res).
+Proof.
+  intros f omin omax s str v Hf Hs c off Hni C O.
+  assert (Hcc : check_convert f omin omax (Some s) str (RFin v) = convert_number f omin omax (Some s) (RFin v))
+    by (destruct f; try discriminate; reflexivity).
+  rewrite Hcc. unfold convert_number. destruct (dcoef s =? 0)%N eqn:E; [lia|].
+  unfold snap. fold c off. rewrite Hf.
+  replace (true && is_integral HalfUp c && is_integral HalfUp off && is_integral HalfUp s) with false
+    by (simpl; symmetry; exact Hni).
+  destruct (snap_dec_rnd c off s Hs) as [res [d [q [m [H0 [H1 [H2 [H3 H4]]]]]]]].
+  rewrite H0. simpl. exists (dec_to_Z (to_integral HalfEven res)), res, d, q, m.
+  split; [reflexivity|]. split; [apply to_integral_even_half|].
+  split; [|split; [exact H2|split; [exact H3|]]].
+  - apply (rnd6_compat _ (C - O) d d) in H1; [exact H1| |reflexivity].
+    unfold C, O, c, off. rewrite clamp_Q, off_val. reflexivity.
+  - apply (rnd6_compat _ (O + m) _ (dval res)) in H4; [exact H4| |reflexivity].
+    unfold O, off. rewrite off_val. reflexivity.
+Qed.
